@@ -183,6 +183,13 @@ OPS.append(("m set [k,[m]]", 'm set ["k", [m]]', mk_ins("m", "", lambda h: [h["m
 OPS.append(("m set [k,a]", 'm set ["k", a]', mk_ins("m", "", lambda h: h["a"], lambda c, v: c.__setitem__("k", v))))
 OPS.append(("a pushBack m", "a pushBack m", mk_ins("a", "", lambda h: h["m"], lambda c, v: c.append(v))))
 
+# the offending element is not the first one: a refusal must not leave the elements before it appended
+OPS.append(("a append [7,a]", "a append [7, a]", mk_ins("a", "", lambda h: [7, h["a"]], lambda c, v: c.extend(v))))
+OPS.append(("a append [7,[a],8]", "a append [7, [a], 8]", mk_ins("a", "", lambda h: [7, [h["a"]], 8], lambda c, v: c.extend(v))))
+OPS.append(("c append [7,m]", "c append [7, m]", mk_ins("c", "", lambda h: [7, h["m"]], lambda c, v: c.extend(v))))
+# the KEY holds the map
+OPS.append(("m set [[m],1]", 'm set [[m], 1]', mk_ins("m", "", lambda h: [h["m"]], lambda c, v: None)))
+
 OPNAMES = [o[0] for o in OPS]
 OPBY = {o[0]: o for o in OPS}
 
